@@ -167,6 +167,11 @@ func c08RangeSensitive(c *Ctx, f *ssa.Function, rg *ssa.Range) []string {
 				if _, isConst := ssax.Resolve(x.Val).(*ssa.Const); isConst {
 					continue // constant into an outer variable (flag / fixed event)
 				}
+				if call, isCall := x.Val.(*ssa.Call); isCall {
+					if bi, isB := call.Common().Value.(*ssa.Builtin); isB && bi.Name() == "append" {
+						continue // the grown slice put back into its variable: judged by the append rule below
+					}
+				}
 				if a, isAlloc := x.Addr.(*ssa.IndexAddr); isAlloc {
 					if _, ok := a.X.(*ssa.Alloc); ok {
 						continue // varargs / literal backing array
@@ -306,6 +311,23 @@ func sortedAfter(f *ssa.Function, app *ssa.Call, inLoop map[*ssa.BasicBlock]bool
 			}
 		}
 	}
+	// the slice may live in a local that a closure captures (sort.Slice's less function): the append is stored into the
+	// local and the sorted value is a load of it
+	for _, cv := range append([]ssa.Value{}, carriers...) {
+		if refs := cv.Referrers(); refs != nil {
+			for _, ref := range *refs {
+				if st, ok := ref.(*ssa.Store); ok && st.Val == cv {
+					if al, ok := st.Addr.(*ssa.Alloc); ok && al.Referrers() != nil {
+						for _, r2 := range *al.Referrers() {
+							if ld, ok := r2.(*ssa.UnOp); ok && !inLoop[ld.Block()] {
+								carriers = append(carriers, ld)
+							}
+						}
+					}
+				}
+			}
+		}
+	}
 	for _, cv := range carriers {
 		refs := cv.Referrers()
 		if refs == nil {
@@ -315,10 +337,23 @@ func sortedAfter(f *ssa.Function, app *ssa.Call, inLoop map[*ssa.BasicBlock]bool
 			if inLoop[ref.Block()] {
 				continue
 			}
-			if call, ok := ref.(ssa.CallInstruction); ok {
+			isSort := func(r ssa.Instruction) bool {
+				call, ok := r.(ssa.CallInstruction)
+				if !ok {
+					return false
+				}
 				id := ssax.FuncID(ssax.CalleeObj(call))
-				if id == "sort.Ints" || id == "sort.Strings" || id == "sort.Slice" || id == "sort.Sort" || id == "sort.SliceStable" {
-					return true
+				return id == "sort.Ints" || id == "sort.Strings" || id == "sort.Slice" || id == "sort.Sort" || id == "sort.SliceStable"
+			}
+			if isSort(ref) {
+				return true
+			}
+			// sort.Slice(xs, less) takes the slice as an interface value
+			if mi, ok := ref.(*ssa.MakeInterface); ok && mi.Referrers() != nil {
+				for _, r2 := range *mi.Referrers() {
+					if !inLoop[r2.Block()] && isSort(r2) {
+						return true
+					}
 				}
 			}
 		}
@@ -562,6 +597,12 @@ func c08Isolation(c *Ctx) {
 
 func c08Addressing(c *Ctx) {
 	r := c.R
+	// what a poll hands to the node depends on the log only, not on where the batch starts (R4, reader side)
+	for _, rd := range [][2]string{{pkgFS, "FileStorage"}, {"storage/kafka_storage", "KafkaStorage"}} {
+		if gm := c.Fn("C08/R4", rd[0], rd[1], "GetMessages"); gm != nil {
+			freshDecodeTarget(c, "C08/R4", lastSeg(rd[0])+".GetMessages:fresh-decode-target", gm)
+		}
+	}
 	for _, spec := range []struct{ fn, callee string }{{"Poll", "ProcessMessage"}, {"reinitDKG", "processMessage"}} {
 		fn := c.Fn("C08/R4", pkgNode, "BaseNodeService", spec.fn)
 		if fn == nil {
